@@ -276,10 +276,15 @@ def gen_track_history(rng, schema, nops, hist):
                 v = 0
             if f == "origin_database_uuid" and rng.random() < 0.5:
                 v = b""
+            frame = rng.random() < 0.5
+            if frame:
+                lines.append("tt.raw")
             lines.append("tt.get %d" % i)
             lines.append("tt.setc %s %d %s" % (f, i, tok(TRACK_ACC_TY[f], v)))
             lines.append("tt.get %d" % i)
             lines.append("tt.getc %s %d" % (f, i))
+            if frame:
+                lines.append("tt.raw")
             g.count("op:setc")
             g.count("setc:" + f)
         elif c < 0.82:
@@ -315,6 +320,238 @@ def gen_track_history(rng, schema, nops, hist):
     return lines
 
 
+# ------------------------------------------------------------------ list tables (Playlist, PlaylistEntity)
+class PlSim:
+    """What the generator needs to know about the Playlist table to choose meaningful and
+    cycle-free arguments: ids, titles, parents, next pointers, under the UNIQUE constraints and the
+    splice triggers (the isPersist triggers never make a statement fail).  A parent cycle would make
+    the schema's recursive views run forever, so it must never be generated."""
+
+    def __init__(self):
+        self.rows, self.seq = {}, 0
+
+    @staticmethod
+    def unique(rows):
+        a, b = set(), set()
+        for r in rows.values():
+            k1, k2 = (r["title"], r["parent"]), (r["parent"], r["next"])
+            if k1 in a or k2 in b:
+                return False
+            a.add(k1)
+            b.add(k2)
+        return True
+
+    @staticmethod
+    def valid(title):
+        return len(title) > 0 and b";" not in title
+
+    def add(self, rid, title, parent, nxt):
+        if rid != 0 or not self.valid(title):
+            return None
+        rows = {k: dict(v) for k, v in self.rows.items()}
+        for r in rows.values():
+            if r["next"] == nxt and r["parent"] == parent:
+                r["next"] = -(1 + r["next"])
+        if not self.unique(rows):
+            return None
+        i = self.seq + 1
+        rows[i] = dict(title=title, parent=parent, next=nxt)
+        if not self.unique(rows):
+            return None
+        for k, r in rows.items():
+            if r["next"] == -(1 + nxt) and r["parent"] == parent:
+                r["next"] = i
+        if not self.unique(rows):
+            return None
+        self.rows, self.seq = rows, i
+        return i
+
+    def descendants(self, i):
+        out, queue = [], [i]
+        while queue:
+            q = queue.pop(0)
+            kids = [k for k in sorted(self.rows) if self.rows[k]["parent"] == q]
+            out += kids
+            queue += kids
+            if len(out) > 10000:
+                raise RuntimeError("cycle")
+        return out
+
+    def update(self, i, title, parent, nxt):
+        if i == 0 or not self.valid(title) or i not in self.rows:
+            return False
+        rows = {k: dict(v) for k, v in self.rows.items()}
+        old = rows[i]
+        op, on = old["parent"], old["next"]
+        if on == nxt and op == parent:
+            rows[i]["title"] = title
+            if not self.unique(rows):
+                return False
+        else:
+            rows[i]["next"] = -(1 + rows[i]["next"])
+            if not self.unique(rows):
+                return False
+            for r in rows.values():
+                if r["next"] == i and r["parent"] == op:
+                    r["next"] = on
+            if not self.unique(rows):
+                return False
+            for r in rows.values():
+                if r["next"] == nxt and r["parent"] == parent:
+                    r["next"] = i
+            if not self.unique(rows):
+                return False
+            rows[i].update(title=title, parent=parent, next=nxt)
+            if not self.unique(rows):
+                return False
+        self.rows = rows
+        return True
+
+    def remove(self, i):
+        if i not in self.rows:
+            return False
+        rows = {k: dict(v) for k, v in self.rows.items()}
+        for j in [i] + self.descendants(i):
+            if j not in rows:
+                continue
+            old = rows.pop(j)
+            for r in rows.values():
+                if r["next"] == j:
+                    r["next"] = old["next"]
+            if not self.unique(rows):
+                return False
+            for k in [k for k, r in rows.items() if r["parent"] == j]:
+                del rows[k]
+        self.rows = rows
+        return True
+
+
+TITLES = [b"Crate", b"A", b"B", "Série 世界".encode(), b"with space", b"sl/ash", b"nul\x00in", b"x" * 255, b"y" * 300,
+          b"'q\"", b"%_"]
+UUIDS = [b"lib-uuid-1", b"lib-uuid-1", b"a", b"b", b"", b"other\x00db"]
+FT_EDGES = [0, 1, -1, 999999999, -999999999, 1000000000, 1500000000123456789, -1500000000999999999,
+            2 ** 63 - 1, 1700000000000000000, 86399999999999, 951782400 * 10 ** 9, 4102444800 * 10 ** 9,
+            -9223372036000000000, -2208988800 * 10 ** 9]
+
+
+def gen_list_history(rng, schema, nops, hist):
+    """One stateful script over playlist_table and playlist_entity_table."""
+    def count(k):
+        hist[k] = hist.get(k, 0) + 1
+    sim = PlSim()
+    lines = ["#mode tableapi", "tt.create " + schema]
+    ent_ids, ent_list = 0, {}
+    n = 0
+
+    def title():
+        nonlocal n
+        n += 1
+        c = rng.random()
+        if c < 0.06:
+            count("title:invalid")
+            return rng.choice([b"", b"semi;colon", b";"])
+        if c < 0.16 and sim.rows:
+            count("title:reused")
+            return rng.choice(list(sim.rows.values()))["title"]
+        return rng.choice(TITLES) + b" %d" % n
+
+    def ft():
+        return rng.choice(FT_EDGES) if rng.random() < 0.7 else rng.randrange(-9223372036 * 10 ** 9, 2 ** 63)
+
+    def some_pl(missing_ok=True):
+        ids = sorted(sim.rows)
+        c = rng.random()
+        if ids and c < 0.8:
+            return rng.choice(ids)
+        if missing_ok:
+            return rng.choice([sim.seq + 1, 0, -1, 999, 2 ** 63 - 1])
+        return rng.choice(ids) if ids else 0
+
+    def place(parent, exclude=None):
+        """a next_list_id under `parent`: the end, before an existing sibling, or junk"""
+        sibs = [k for k, r in sim.rows.items() if r["parent"] == parent and k != exclude]
+        c = rng.random()
+        if c < 0.45 or not sibs:
+            return 0 if c < 0.93 else rng.choice([555, -7, 2 ** 40])
+        return rng.choice(sibs)
+
+    def fmt(i, t, p, per, nx, le, ex):
+        return "%d %s %d %d %d %d %d" % (i, cd.hexb(t), p, 1 if per else 0, nx, le, 1 if ex else 0)
+
+    for _ in range(nops):
+        c = rng.random()
+        ids = sorted(sim.rows)
+        if c < 0.28 or not ids:
+            parent = 0 if (not ids or rng.random() < 0.35) else rng.choice(ids)
+            if rng.random() < 0.05:
+                parent = 1000 + rng.randrange(50)          # no such playlist (never an assigned id)
+            rid = 0 if rng.random() < 0.96 else rng.choice([1, -1, 9])
+            t, nx = title(), place(parent)
+            per = rng.random() < 0.5
+            lines.append("tpl.add " + fmt(rid, t, parent, per, nx, ft(), rng.random() < 0.5))
+            got = sim.add(rid, t, parent, nx)
+            lines.append("tpl.get %d" % (got if got else sim.seq + 1))
+            count("op:tpl.add")
+            count("tpl.add:" + ("accepted" if got else "rejected"))
+        elif c < 0.48:
+            i = some_pl()
+            old = sim.rows.get(i)
+            if old and rng.random() < 0.5:
+                parent, nx = old["parent"], old["next"]                 # simple path
+                count("tpl.update:same-position")
+            else:
+                banned = set([i] + (sim.descendants(i) if old else []))
+                cands = [k for k in ids if k not in banned] + [0, 0]
+                parent = rng.choice(cands)
+                nx = place(parent, exclude=i)
+                count("tpl.update:move")
+            t = old["title"] if (old and rng.random() < 0.5) else title()
+            lines.append("tpl.get %d" % i)
+            lines.append("tpl.update " + fmt(i, t, parent, rng.random() < 0.5, nx, ft(), rng.random() < 0.5))
+            sim.update(i, t, parent, nx)
+            lines.append("tpl.get %d" % i)
+            count("op:tpl.update")
+        elif c < 0.56:
+            i = some_pl()
+            lines.append("tpl.ids")
+            lines.append("tpl.remove %d" % i)
+            sim.remove(i)
+            lines.append("tpl.exists %d" % i)
+            count("op:tpl.remove")
+        elif c < 0.80:
+            l = some_pl() if rng.random() < 0.9 else rng.choice([0, 77])
+            t = rng.choice([1, 1, 2, 3, 4, 5, 0, -1, 2 ** 40])
+            u = rng.choice(UUIDS)
+            dup = rng.random() < 0.3
+            lines.append("tpe.raw")
+            lines.append("tpe.add 0 %d %d %s %d %d %d" % (l, t, cd.hexb(u), rng.choice([0, 0, 77, -1]),
+                                                     rng.choice([0, 0, 1, -5, 2 ** 62]), 1 if dup else 0)
+                         if rng.random() < 0.96 else "tpe.add 3 %d %d %s 0 0 0" % (l, t, cd.hexb(u)))
+            lines.append("tpe.get %d %d" % (l, t))
+            ent_ids += 1            # optimistic: duplicates and rejected rows consume no id
+            ent_list[ent_ids] = l
+            count("op:tpe.add")
+        elif c < 0.88:
+            l = some_pl()
+            lines.append("tpe.raw")
+            e = rng.randrange(1, ent_ids + 1) if (ent_ids and rng.random() < 0.8) else rng.choice([99, 0, -1])
+            if rng.random() < 0.6:
+                l = ent_list.get(e, l)
+            lines.append("tpe.remove %d %d" % (l, e))
+            count("op:tpe.remove")
+        elif c < 0.92:
+            lines.append("tpe.clear %d" % some_pl())
+            count("op:tpe.clear")
+        else:
+            lines.append("tpe.get %d %d" % (some_pl(), rng.choice([1, 2, 3, 9])))
+            lines.append("tpl.get %d" % some_pl())
+            count("op:get")
+        if rng.random() < 0.6:
+            lines += ["tpl.raw", "tpe.raw"]
+    lines += ["tpl.ids", "tpl.raw", "tpe.raw"]
+    return lines
+
+
 # ------------------------------------------------------------------ running
 def run_pair(scripts):
     """-> list of (lines, impl outputs, model outputs)"""
@@ -327,7 +564,8 @@ def spec_eval(lines):
     """Evaluate Spec commands (stateless) in the model driver, sharded."""
     if not lines:
         return []
-    return [o for outs in runner.run_model(runner.shard(lines, NCPU)) for o in outs]
+    shards = [["#mode tableapi"] + sh for sh in runner.shard(lines, NCPU)]
+    return [o for outs in runner.run_model(shards) for o in outs[1:]]
 
 
 # ------------------------------------------------------------------ the direct oracle
@@ -340,6 +578,9 @@ class Oracle:
         self.lines, self.impl = lines, impl
         self.queries = []       # (spec line, kind, line index, what to compare with, description)
         self.direct = []        # violations that need no Spec evaluation
+        self.pl_ids = None      # the implementation's own playlist id list, while current
+        self.pl_le = {}         # playlist id -> last-edit time last written to it (ns)
+        self.pe_rows = None     # the implementation's own raw PlaylistEntity rows, while current
 
     def collect(self):
         L, H = self.lines, self.impl
@@ -351,12 +592,18 @@ class Oracle:
                 continue
             cmd = t[0]
             if h.startswith("ub "):
-                self.direct.append((k, "ub", "undefined behaviour (%s) in %s" % (h, cmd)))
+                if cmd == "tpl.get" and self.pl_le.get(int(t[1]), 0) < -9223372036000000000:
+                    self.direct.append((k, "last-edit-floor-overflow",
+                                        "get() of a playlist whose last-edit time lies in the first second of the "
+                                        "time-point range has undefined behaviour (%s)" % h))
+                else:
+                    self.direct.append((k, "ub", "undefined behaviour (%s) in %s" % (h, cmd)))
                 break
             if h.startswith("skipped") or h.startswith("missing"):
                 break
             if cmd == "tt.create":
                 schema, uuid, clock, ids = t[1], "null", 0, []
+                self.pl_ids, self.pe_rows = [], []
             elif cmd == "tt.uuid":
                 uuid = t[1]
             elif cmd == "tt.clock":
@@ -391,6 +638,20 @@ class Oracle:
                 f, i = t[1], int(t[2])
                 if ids is not None and i not in ids and not h.startswith("throw "):
                     self.direct.append((k, "missing-row", "set_%s on a row id with no row answered '%s' instead of an error" % (f, h)))
+                if h == "ok":
+                    # frame on the other rows: the raw Track dumps around the call (independent reader)
+                    a, b = k - 1, k + 1
+                    while a >= 0 and L[a].split()[0] in ("tt.get", "tt.getc", "tt.ids", "tt.exists", "tt.find"):
+                        a -= 1
+                    while b < len(L) and L[b].split()[0] in ("tt.get", "tt.getc", "tt.ids", "tt.exists", "tt.find"):
+                        b += 1
+                    if a >= 0 and b < len(L) and L[a] == "tt.raw" and L[b] == "tt.raw" and H[a].startswith("ok ") \
+                            and H[b].startswith("ok "):
+                        ra, rb = raw_rows(H[a]), raw_rows(H[b])
+                        changed = sorted(j for j in set(ra) | set(rb) if j != i and ra.get(j) != rb.get(j))
+                        if changed:
+                            self.direct.append((k, "column-set-other-rows",
+                                                "set_%s(%d, …) changed other rows: ids %s" % (f, i, changed)))
                 if h == "ok" and k >= 1 and k + 1 < len(L):
                     nxt, prv = L[k + 1].split(), L[k - 1].split()
                     if nxt[:2] == ["tt.get", str(i)] and prv[:2] == ["tt.get", str(i)] and H[k - 1].startswith("ok ") \
@@ -418,6 +679,55 @@ class Oracle:
                                              "get_%s does not denote the member of the row get() returns" % f))
                     else:
                         self.direct.append((k, "column-get", "get_%s on an existing row answered '%s'" % (f, h)))
+            elif cmd == "tpl.ids" and h.startswith("ok ["):
+                self.pl_ids = [int(x) for x in h[4:-1].split(",") if x]
+            elif cmd == "tpl.add":
+                self.pl_ids = None
+                if h.startswith("ok "):
+                    self.pl_le[int(h[3:])] = int(t[6])
+                if h.startswith("ok ") and k + 1 < len(L):
+                    i = int(h[3:])
+                    if L[k + 1].split()[:2] == ["tpl.get", str(i)]:
+                        self.queries.append(("c18.norm.playlist %d %s" % (i, " ".join(t[1:])), "roundtrip", k + 1, H[k + 1],
+                                             "the playlist row read back after add() differs from the row written"))
+            elif cmd == "tpl.update":
+                self.pl_ids = None
+                if h == "ok":
+                    self.pl_le[int(t[1])] = int(t[6])
+                if h == "ok" and k + 1 < len(L):
+                    i = int(t[1])
+                    if L[k + 1].split()[:2] == ["tpl.get", str(i)]:
+                        self.queries.append(("c18.norm.playlist %d %s" % (i, " ".join(t[1:])), "update", k + 1, H[k + 1],
+                                             "the playlist row read back after update() differs from the row written"))
+            elif cmd == "tpl.remove":
+                i = int(t[1])
+                if self.pl_ids is not None and i not in self.pl_ids and not h.startswith("throw "):
+                    self.direct.append((k, "missing-row", "playlist remove() of an id with no row answered '%s' instead of an error" % h))
+                self.pl_ids = None
+            elif cmd == "tpe.raw" and h.startswith("ok "):
+                self.pe_rows = parse_raw(h)
+            elif cmd in ("tpe.clear",):
+                self.pe_rows = None
+            elif cmd == "tpe.add":
+                rows, self.pe_rows = self.pe_rows, None
+                if h.startswith("ok ") and rows is not None and k + 1 < len(L):
+                    i = int(h[3:])
+                    l, tr = int(t[2]), int(t[3])
+                    inserted = all(int(r["id"][1:]) != i for r in rows)
+                    if inserted and L[k + 1].split() == ["tpe.get", str(l), str(tr)]:
+                        # get(list, track) cannot say which database the track is from: with another entry of
+                        # the same (list, track) present the answer is ambiguous (recorded finding)
+                        amb = any(r["listId"] == "i%d" % l and r["trackId"] == "i%d" % tr for r in rows)
+                        self.queries.append(("c18.norm.entity %d %s" % (i, " ".join(t[1:7])),
+                                             "entity-get-ambiguous" if amb else "roundtrip", k + 1, H[k + 1],
+                                             "the entity row read back after add_back() differs from the row written"))
+            elif cmd == "tpe.remove":
+                rows, self.pe_rows = self.pe_rows, None
+                if rows is not None:
+                    l, e = int(t[1]), int(t[2])
+                    present = any(r["listId"] == "i%d" % l and r["id"] == "i%d" % e for r in rows)
+                    if not present and not h.startswith("throw "):
+                        self.direct.append((k, "missing-row", "entity remove() of an entity that does not exist answered '%s' instead of an error" % h))
             elif cmd == "tt.remove":
                 i = int(t[1])
                 if ids is not None:
@@ -439,16 +749,38 @@ class Oracle:
             if got != exp:
                 detail = ["spec:  " + exp[:4000], "impl:  " + got[:4000]]
                 field = None
-                if kind in ("roundtrip", "update", "column-set") and got.startswith("ok ") and got != "ok none":
+                if kind in ("roundtrip", "update", "column-set", "entity-get-ambiguous") and got.startswith("ok ") \
+                        and got != "ok none":
                     try:
-                        a, b = split_row(TRACK_FIELDS, got[3:]), split_row(TRACK_FIELDS, exp[3:])
-                        bad = [f for f, _ in TRACK_FIELDS if a[f] != b[f]]
+                        fields = TRACK_FIELDS if q.startswith(("c18.norm.track", "c18.set.track")) else \
+                            PLAYLIST_FIELDS if q.startswith("c18.norm.playlist") else ENTITY_FIELDS
+                        a, b = split_row(fields, got[3:]), split_row(fields, exp[3:])
+                        bad = [f for f, _ in fields if a[f] != b[f]]
                         field = ",".join(bad)
                         detail.insert(0, "members that differ: " + field)
                     except (ValueError, IndexError):
                         pass
                 out.append((k, kind, what + (" (members: %s)" % field if field else ""), detail))
         return sorted(out)
+
+
+def raw_rows(h):
+    """'ok seq=(n) {id=i1 …} {id=i2 …}' -> dict id -> row text"""
+    out = {}
+    body = h[h.index("{"):] if "{" in h else ""
+    for row in re.findall(r"\{(.*?)\}(?= \{|$)", body):
+        m = re.match(r"id=i(-?\d+) ", row)
+        if m:
+            out[int(m.group(1))] = row
+    return out
+
+
+def parse_raw(h):
+    """'ok seq=(n) {c=v c=v ...} {...}' -> list of dicts column -> printed value (blob columns not supported)"""
+    out = []
+    for m in re.finditer(r"\{([^}]*)\}", h):
+        out.append(dict(kv.split("=", 1) for kv in m.group(1).split()))
+    return out
 
 
 def judge_all(results):
